@@ -13,5 +13,6 @@ CONSTANTS
   FixCommonSnapshot = TRUE
   GenDepth = 11
   GenHistory = TRUE
+  GenReject = TRUE
 INVARIANT Emit
 CHECK_DEADLOCK FALSE
